@@ -327,6 +327,9 @@ pub fn run(tier: Tier) -> i32 {
                 if !dest_items.contains(&d) {
                     ctx.violation("dest|proposal-not-in-DEST-enum", json!({"ref": format!("{r:?}"), "target": format!("{t:?}"), "dest": d.to_str()}));
                 }
+            } else if let Some(d) = dest_items.iter().find(|d| t.verify_reference_dest(**d)) {
+                // the lookup matches the listings: no proposal only if no item of the DEST enumeration is accepted by the target
+                ctx.violation("dest|no-proposal-although-the-listings-share-a-value", json!({"ref": format!("{r:?}"), "target": format!("{t:?}"), "shared_value": d.to_str()}));
             }
         }
     });
